@@ -77,7 +77,8 @@ func init() {
 			{"xlsxWorksheet", "mergeCellsParser", "mergeCellsParser"},
 			{"", "cellInRange", "cellInRange"},
 			{"xlsxMergeCell", "Rect", "mergeCellRect"},
-			{"", "overlapRange", "overlapRange"},
+			{"", "isOverlap", "isOverlap"},
+			{"", "mergeCell", "mergeCell"},
 			{"", "flatMergedCells", "flatMergedCells"},
 			{"File", "mergeOverlapCells", "mergeOverlapCells"},
 			{"", "checkCompoundFileHeader", "checkCompoundFileHeader"},
